@@ -3,6 +3,7 @@
 import _thread
 import atexit
 import contextlib
+import os
 import types
 from collections import deque
 from heapq import heappop, heappush
@@ -31,6 +32,12 @@ except ImportError:
 
 
 TIMEOUT = 0.1  # 100ms timeout when idle
+
+# Verification instrumentation: consulted only when CIRCUITS_VERIF is set in the
+# environment.  A harness may then install a callable that is told about every
+# enqueue ('fire') and about the begin / end of every dispatch.
+_VERIF = bool(os.environ.get('CIRCUITS_VERIF'))
+_verif_tracer = None
 
 
 class UnregistrableError(Exception):
@@ -428,6 +435,8 @@ class Manager:
                 self._currently_handling.effects += 1
 
             self._queue.append(event, channel, priority)
+            if _VERIF and _verif_tracer is not None:
+                _verif_tracer('fire', self, event, channel, priority)
 
         # the event comes from another thread
         else:
@@ -446,6 +455,8 @@ class Manager:
                 handling = self._currently_handling
 
                 self._queue.append(event, channel, priority)
+                if _VERIF and _verif_tracer is not None:
+                    _verif_tracer('fire', self, event, channel, priority)
                 if isinstance(handling, generate_events):
                     handling.reduce_time_left(0)
 
@@ -581,6 +592,9 @@ class Manager:
         # TODO: C901: This has a high McCabe complexity score of 22.
         # TODO: Refactor this method.
 
+        if _VERIF and _verif_tracer is not None:
+            _verif_tracer('dispatch', self, event, channels, remaining)
+
         if event.cancelled:
             return
 
@@ -672,6 +686,8 @@ class Manager:
                 break  # Stop further event processing
 
         self._currently_handling = None
+        if _VERIF and _verif_tracer is not None:
+            _verif_tracer('dispatched', self, event, channels, remaining)
         self._eventDone(event, err)
 
     def _eventDone(self, event, err=None):
